@@ -27,7 +27,7 @@ fn hist_prop() -> HistProp {
     opts.universe_probe = false;
     HistProp {
         opts,
-        cfgs: || crate::gen::with_emb(cfg_strategy(2)),
+        cfgs: || crate::gen::with_emb(crate::gen::cfg_deep()),
         max_ops: 40,
         max_prepop: 8,
         cases_quick: 3000,
